@@ -1341,6 +1341,8 @@ fn record_dgrams(conn: quinn::Connection, rec: Arc<Mutex<Vec<Vec<u8>>>>) -> toki
 
 /// What the application of the endpoint does with its connection in a scenario.
 async fn scenario_app(conn: &Connection, scenario: &str, keep: &mut Keep) -> Option<String> {
+    // `streams_sid4` / `dgram_sid8`: the same scenarios on a session whose id is not 0
+    let scenario = scenario.split("_sid").next().unwrap_or(scenario);
     match scenario {
         "streams" => {
             let (u, s) = app_open_uni(conn).await;
@@ -1528,6 +1530,13 @@ async fn wire_record(a: &[String]) -> Vec<String> {
         tasks.push(record_dgrams(c.conn.clone(), dgrams.clone()));
         let raw_side = async {
             c.open_control(&wire::std_settings_frame()).await?;
+            // a session id other than 0: earlier bidirectional streams on which nothing is ever sent
+            let skip = scenario.split("_sid").nth(1).and_then(|x| x.parse::<u64>().ok()).unwrap_or(0) / 4;
+            for _ in 0..skip {
+                let (s, r) = c.open_bi().await?;
+                c.keep_send.push(s);
+                c.keep_recv.push(r);
+            }
             c.send_request(&wire::std_request_frame()).await
         };
         if let Err(e) = raw_side.await {
@@ -2346,6 +2355,11 @@ fn gen_c16_codes(emit: &mut dyn FnMut(&str, Vec<String>)) {
 
 fn gen_c16_round(emit: &mut dyn FnMut(&str, Vec<String>)) {
     gen_c16_codes(emit);
+    for scenario in ["streams_sid4", "dgram_sid4", "streams_sid8", "dgram_sid8"] {
+        for rt in RTS {
+            emit("wire.record", vec![s(rt), s("server"), s(scenario)]);
+        }
+    }
     for side in SIDES {
         for scenario in ["connect_accept", "connect_reject", "connect_forbidden", "connect_too_many", "streams", "dgram"] {
             for rt in RTS {
